@@ -1,4 +1,5 @@
 import Hgxv.Proofs.C04Rej
+import Hgxv.Proofs.C04AggSpec
 /-! # C04 - MultiplexHypergraph keeps (hyperedge, layer) records; aggregation sums layers
 
 Objects (see `Model/C04.lean`, `Model/C04Spec.lean`): `Store` = the tables of the Python object, `step`/`run` =
@@ -54,6 +55,34 @@ theorem C04_queries (w : Bool) (hm : HMeta) (ops : List Op) (hw : ∀ op ∈ ops
   exact ⟨nodes_abs s, rfl, records_abs s, fun raw l => getWeight_abs s raw l h, fun raw l => getEdgeMeta_abs s raw l h,
     fun n f => incident_abs s n f h, fun n f => degree_abs s n f h, fun f => degreeSeq_abs s f h, edgesMeta_abs s h,
     rfl, rfl, fun _ => rfl, rfl, rfl⟩
+
+/-- **The two derived objects.** After every history `aggregated_hypergraph()` is - as a structure: weighted flag,
+metadata, nodes with metadata, hyperedges with weight and metadata - the declarative aggregate of the abstract map
+(`Spec.aggregated`: the distinct node sets of all layers, each with Σ of its per-layer weights when weighted and 1 when
+not, and the metadata of its last record), and `edge_overlap` is `Spec.overlap` (Σ of the per-layer weights). -/
+theorem C04_refines_aggregate (w : Bool) (hm : HMeta) (ops : List Op) (hw : ∀ op ∈ ops, op.WF) :
+    aggregated (run (init w hm) ops) = some (Spec.aggregated (Spec.run (Spec.init w hm) ops)) ∧
+    ∀ raw, overlap (run (init w hm) ops) raw = Spec.overlap (Spec.run (Spec.init w hm) ops) raw := by
+  have h := C04_inv w hm ops hw
+  rw [← C04_refines w hm ops hw]
+  exact ⟨aggregated_spec _ h, fun raw => overlap_spec _ raw h⟩
+
+/-- **The abstract state is a map.** After every history the abstract records have pairwise distinct keys, every key is
+a strictly increasing (canonical, duplicate-free) node list, the nodes are pairwise distinct and contain every node of
+every record. -/
+theorem C04_spec_is_map (w : Bool) (hm : HMeta) (ops : List Op) (hw : ∀ op ∈ ops, op.WF) :
+    (keys (Spec.run (Spec.init w hm) ops).edges).Nodup ∧ (keys (Spec.run (Spec.init w hm) ops).nodes).Nodup ∧
+    (∀ k ∈ keys (Spec.run (Spec.init w hm) ops).edges, k.1.Pairwise (· < ·) ∧
+      ∀ n ∈ k.1, n ∈ keys (Spec.run (Spec.init w hm) ops).nodes) := by
+  have h := C04_inv w hm ops hw
+  rw [← C04_refines w hm ops hw]
+  refine ⟨by rw [abs_edges, keys_mapVal]; exact h.id.el_nodup, h.nm.nm_nodup, ?_⟩
+  intro k hk
+  rw [abs_edges, keys_mapVal] at hk
+  obtain ⟨p, hp, rfl⟩ := List.mem_map.mp hk
+  have hrev := h.id.rev_of_edge _ _ (get?_of_mem _ _ _ h.id.el_nodup hp)
+  refine ⟨h.id.key_sorted _ _ hrev, fun n hn => ?_⟩
+  exact (mem_keys_iff _ _).mpr ((h.nm.adj_nm n).mp (h.adj.nodes_in _ _ hrev n hn))
 
 /-- **A rejected call is a no-op** (also the batched ones: validation precedes the first mutation). -/
 theorem C04_rejected_noop (s : Store) (op : Op) (h : (step s op).2 = Out.rej) : (step s op).1 = s :=
